@@ -67,6 +67,20 @@ func checkHashBinding(c *engine.Ctx, rule string) {
 func blockBoundToOwnHash(mu *ssa.MapUpdate) (bool, string) {
 	// value: block = Extract#0 of NewBlockWithCid(d, cidv)
 	val := engine.LocalValue(mu.Value)
+	orig := val
+	// a result assembled in a variable (nil on the error paths, the block otherwise): take the one non-nil source
+	if _, isPhi := val.(*ssa.Phi); isPhi {
+		var srcs []ssa.Value
+		for _, o := range engine.ValueOutcomes(val, mu.Block()) {
+			if engine.IsNilConst(o.V) {
+				continue
+			}
+			srcs = append(srcs, engine.LocalValue(o.V))
+		}
+		if len(srcs) == 1 {
+			val = srcs[0]
+		}
+	}
 	ex, ok := val.(*ssa.Extract)
 	if !ok || ex.Index != 0 {
 		return false, "the block stored is not the result of blocks.NewBlockWithCid"
@@ -102,7 +116,7 @@ func blockBoundToOwnHash(mu *ssa.MapUpdate) (bool, string) {
 		if u, ok := r.(*ssa.UnOp); ok && u.Op == token.MUL {
 			r = u.X // value receiver: (*blk).Cid()
 		}
-		if r != nil && engine.LocalValue(r) == val {
+		if r != nil && (engine.LocalValue(r) == val || engine.LocalValue(r) == orig) {
 			if (kc.Call.IsInvoke() && kc.Call.Method.Name() == "Cid") || (ki.Static != nil && ki.Static.Name() == "Cid") {
 				keyOK = true
 			}
